@@ -139,6 +139,18 @@ coap_cache_entry_t *coap_new_cache_entry_lkd(coap_session_t *session,
                                              coap_cache_session_based_t session_based,
                                              unsigned int idle_time);
 
+/**
+ * Remove a cache-entry from the hash list and free off all the appropriate
+ * contents apart from app_data.
+ *
+ * Note: This function must be called in the locked state.
+ *
+ * @param context     The context to use.
+ * @param cache_entry The cache-entry to remove.
+ */
+void coap_delete_cache_entry_lkd(coap_context_t *context,
+                                 coap_cache_entry_t *cache_entry);
+
 typedef void coap_digest_ctx_t;
 
 /**
